@@ -3,10 +3,20 @@
 Correspondence stream `c06` (engine `Engines/C06.lean`, model `Model/Nulls.lean`): one real call through
 an entry point (`model_matrix`, `Formula.get_model_matrix`, `ModelSpec(s).get_model_matrix` with/without
 overrides, fitted or not, joint or one call per part, materializer method) on a generated frame, against
-`Model.Nulls.call`. The model is told, per evaluated factor, what the implementation's `find_nulls`
-flagged and how the values are stored (which `drop_rows` overload / encoder they reach); it answers with
-the surviving row positions per part, the output index, the final content of the caller's set, or the
-error kind. The implementation's kept positions are read off a row-id column (`rid`) that every part carries.
+`Model.Nulls.callNA`. The model is told, per evaluated factor, the SHAPE of the value (constant, list, pandas /
+narwhals Series, 0/1/2/n-d array, data frame, nested dict with hidden members, unknown object) and which of its CELLS are
+null by an independent per-cell definition (None / NaN / pandas.NA / NaT) — not what `find_nulls` returned — plus the
+encoder it carries; `find_nulls`, `as_columns`, the `map_dict` traversal and the `drop_rows` overloads are computed by the
+model. It answers with the surviving row positions per column, the output index, the final content of the caller's set,
+or the error kind (null-check errors and `drop_rows` errors included). The implementation's kept positions are read off a
+row-id column (`rid`) that every part carries. `na_action` is passed as a string, as an `NAAction` member, or as an invalid
+string (error branch of `NAAction(...)`).
+
+Unit stream (`kind = "unit"`): `null_handling.find_nulls(value)` / `null_handling.drop_rows(value, indices)` called
+directly on a generated value of EVERY type they dispatch on (None, str, int, float, bool, numpy scalars, list, dict,
+narwhals Series, pandas Series / DataFrame, 0/1/2/3-d ndarray, csc / csr sparse matrix, tuple / object; bare or wrapped in
+`FactorValues`), `indices` sorted / unsorted / with repeats / as tuple / out of range / empty, against
+`Model.Nulls.findNulls` / `dropRowsV`.
 
 Histories (`kind = "history"`): ONE materializer object receives 2-3 `get_model_matrix` calls (formulas that share
 factors, or the spec an earlier call returned; per call its own na_action, output type and caller drop set). Every call
@@ -31,10 +41,24 @@ import pandas
 PROPERTY = "C06"
 ENGINE = "c06"
 REQUIRED_THEOREMS = [
+    "find_nulls_rows",
+    "find_nulls_answers_iff",
+    "drop_rows_positional",
+    "drop_rows_positions_outside",
+    "drop_rows_order_and_repeats_irrelevant",
+    "drop_rows_without_rows",
+    "sorted_drop_rows",
+    "dispatch_tables_match_package",
+    "na_action_text",
+    "na_action_call",
+    "null_rows_exact",
+    "kept_rows_by_cells",
     "drop_exact",
     "dropset_reported",
     "raise_iff",
     "ignore_keeps",
+    "uncheckable_factor_raises",
+    "null_check_error_iff",
     "encoders_consistent",
     "per_part_calls",
     "entry_points_forward",
@@ -43,18 +67,32 @@ REQUIRED_THEOREMS = [
     "reuse_raise_ignore",
 ]
 TRUSTED = [
-    "parameter: which cells `find_nulls` flags for an evaluated factor (forwarded from the implementation per case; "
-    "checked in the oracle against an independent per-cell definition of null: None, NaN, pandas.NA, NaT)",
-    "parameter: the storage type of each evaluated factor (pandas Series / ndarray / narwhals Series / list) and which "
-    "encoder it carries (default, C(), hashed()) — read from materializer.factor_cache of a probe run with na_action='ignore'",
+    "parameter: which CELLS of an evaluated factor are null (per cell, decided in the harness by an independent definition: "
+    "None, NaN, pandas.NA, NaT) and the TYPE of the evaluated value (which find_nulls / as_columns / drop_rows overload it "
+    "reaches) — read from materializer.factor_cache of a probe run with na_action='ignore'; what find_nulls does with them "
+    "(row-wise any, union over dict members, errors) is computed by the model and compared",
+    "generated: the members of NAAction and the singledispatch registries of find_nulls / drop_rows (Gen/NullTables.lean, "
+    "from the live package; theorem dispatch_tables_match_package ties the model's 'no implementation' cases to them)",
     "modelled, not verified: pandas/numpy/narwhals/scipy row selection primitives themselves (boolean mask indexing, "
-    "numpy.delete, Index.delete, narwhals filter), modelled as positional filters; factor evaluation; the encoders' values "
+    "numpy.delete, Index.delete, narwhals filter, CSR mask indexing), modelled as positional filters; scipy.sparse.find as "
+    "'the stored non-zero entries' (a sparse matrix is described by its dense cells); factor evaluation; the encoders' values "
     "(only their row handling is modelled)",
+    "modelled: a value declared to be of kind 'constant' is folded into its term as `scale * _encode_constant(1, …)` = "
+    "`x * ones(nrows - len(drop_rows))` without any drop_rows call (Encoder.constant); a factor that evaluates to None is "
+    "left out of its terms (`_get_scoped_terms`)",
+    "not modelled: whether the container of a given materializer / output type accepts a CONSTANT column (pandas output of "
+    "PandasMaterializer does; numpy / sparse output does not: those calls fail identically without any null, and are excused); "
+    "what becomes of values that cannot be columns (0-d / >2-d arrays, sparse or unknown objects, 2-d members of dicts) after "
+    "the null check — the model answers NotColumns and only the null check is compared; interaction terms are compared "
+    "through their factors (the model has no term level); the order in which the pooled factors are null-checked is the "
+    "iteration order of a Python set: when several factors fail the check, which error is reported is not compared",
     "histories: the model keeps the materializer object's factor_cache / encoded_cache as state (keys = factor expressions; "
     "the (expr, reduced_rank) refinement of the encoded_cache key is not modelled — unobservable when the caches are emptied "
-    "per call, theorem materializer_reuse); transform/encoder state carried by a replayed spec is not modelled (C04/C18)",
-    "not modelled: scalar (constant) factor values that are NaN (`find_nulls` raises for them), drop positions that are "
-    "negative, frames whose transforms return a Series with an index different from the data's",
+    "per call, theorem materializer_reuse); transform/encoder state carried by a replayed spec is not modelled (C04/C18); a call "
+    "that raises for reasons other than nulls (a contrast whose reference level does not exist, a 3-d array) is made, and the "
+    "calls after it on the same object are compared with calls on new objects — the failing call itself is not predicted",
+    "not modelled: drop positions that are negative, frames whose transforms return a Series with an index different from "
+    "the data's, lists / arrays whose length differs from the number of rows (pandas broadcasts some of them)",
 ]
 ASSUMPTIONS = [
     "the caller's drop set contains row positions of the data (0 <= i < nrows); positions outside the frame are exercised "
@@ -63,19 +101,35 @@ ASSUMPTIONS = [
     "list is removed (the property text says 'every row is kept' and does not speak about the caller's list there)",
     "for one-call-per-part evaluation (ModelSpecs whose parts name different materializers) the oracle demands per part "
     "that no kept row is null/listed and that the final set is the union of everything removed",
+    "a constant factor that is null (`{float('nan')}`) counts as 'has a null' for the raise policy (the error is find_nulls' "
+    "'Constant value is null'); under the drop policy the property text asks for a matrix without rows while the code raises: "
+    "known finding C06-F1 (pinned by tests/utils/test_null_handling.py)",
+    "values no encoder can turn into columns whatever the policy (3-d arrays, unknown objects, 0-d arrays) fail under every "
+    "policy; the oracle treats a failure that also occurs on the null-free sub-frame as outside the property",
 ]
 RULE = (
     "frames of 1-12 rows: float columns a,b,c (NaN), nullable Int64 k (pandas.NA), object text A (None), Categorical B (NaN), "
-    "row-id column rid; index in {default, unique strings, non-unique ints/strings, unsorted ints}; pandas frames and "
-    "pyarrow tables; formulas of 1-3 parts (simple, `l ~ r`, `l ~ r1 | r2`, `r1 | r2`, empty part `~ 0`), each part rid + 0-3 "
-    "terms over names, I(), {}, C(), C(, contr.sum), hashed(), center, scale, poly, bs, interactions; "
-    "x na_action x caller drop set (none / empty / random subset) x entry point (sugar, formula, modelspec +-overrides "
-    "+-fitted, modelspecs +-overrides +-fitted, materializer, one-call-per-part) x output x materializer. "
-    "PLUS histories on one materializer object (PandasMaterializer / NarwhalsMaterializer over pandas or pyarrow data): 2-3 "
+    "row-id column rid; index in {default, unique strings, non-unique ints/strings, unsorted ints}; data given as pandas "
+    "frame, pyarrow table, plain dict of columns (of scalars: one row), numpy recarray or narwhals-wrapped frame; "
+    "formulas of 1-3 parts (simple, `l ~ r`, `l ~ r1 | r2`, `r1 | r2`, empty part `~ 0`), each part rid + 0-3 "
+    "terms over names, I(), {}, C(), C(, contr.sum), hashed(), center, scale, poly, bs, interactions, AND value-shaped Python "
+    "factors: constants ({1.5}, {2}, {True}, {NAN}, numpy float32/int64/bool scalars, {v.max()}, {k.max()}), lists, 1-d / 2-d / "
+    "0-d / 3-d arrays, data frames, dicts (mixed Series / list / array / constant members, hidden `__` members, nested), "
+    "categorical dicts (FactorValues(dict, kind='categorical')), values of kind 'constant', a factor that evaluates to None, "
+    "unknown objects, C()/hashed() of lists and arrays; "
+    "x na_action (string | NAAction member | invalid string) x caller drop set (none / empty / random subset) x entry point "
+    "(sugar, formula, modelspec +-overrides +-fitted, modelspecs +-overrides +-fitted, materializer, one-call-per-part) x output "
+    "x materializer. "
+    "PLUS histories on one materializer object (PandasMaterializer / NarwhalsMaterializer over pandas or pyarrow data): 2-4 "
     "get_model_matrix calls, each with its own formula (terms drawn from a pool shared by the history, so factors recur; or "
     "the ModelSpec(s) an earlier call returned), na_action, output type and caller drop set (none / empty / random subset); "
-    "every call observed on the reused object and on a new one. "
-    "non-trivial = drop policy, at least one row removed and one kept; distinct by canonical JSON"
+    "about a quarter of the calls RAISE after their factors were evaluated (unknown contrast reference level, 3-d array, "
+    "unknown object, nulls under raise) and the later calls reuse their factors; every call observed on the reused object and "
+    "on a new one. "
+    "PLUS unit cases: find_nulls / drop_rows called directly on every value type (bare / FactorValues-wrapped), indices "
+    "sorted / unsorted / repeated / tuple / out of range / empty. "
+    "non-trivial = drop policy, at least one row removed and one kept (unit: a value with rows and a non-empty index list "
+    "or a null cell); distinct by canonical JSON"
 )
 
 VARIANT = os.environ.get("VERIF_C06_VARIANT", "current")
@@ -83,7 +137,64 @@ VARIANT = os.environ.get("VERIF_C06_VARIANT", "current")
 # ----------------------------------------------------------------------------- generators
 
 NUM = ["a", "b", "c"]
-STATEFUL = ("center(", "scale(", "poly(", "bs(")
+# (terms whose values depend on which rows are present: the sub-frame comparison does not apply to them)
+STATEFUL = ("center(", "scale(", "poly(", "bs(", ".max()", "len(")
+NULLCHECK = ("NullsPresent", "ConstantNull", "TooManyDims", "NoFindNulls")
+
+
+def FR(*cols):
+    """(formula context) a data frame made of columns of the data (keeps the row labels of a pandas frame)"""
+    return pandas.DataFrame({f"c{i}": (c if isinstance(c, pandas.Series) else c.to_pandas()) for i, c in enumerate(cols)})
+
+
+class Opaque:
+    """(formula context) an object of a type neither find_nulls nor drop_rows knows"""
+
+
+def CAT(**cols):
+    """(formula context) a dict of columns declared categorical: every member is dummy-coded after its rows were dropped"""
+    from formulaic.materializers.types import FactorValues
+
+    return FactorValues(dict(cols), kind="categorical", spans_intercept=False)
+
+
+def KONST(x):
+    """(formula context) a value of kind 'constant': encoded by `_encode_constant` as x * ones(nrows - len(drop_rows))"""
+    from formulaic.materializers.types import FactorValues
+
+    return FactorValues(x, kind="constant")
+
+
+# names that value-shaped Python factors may use (passed as `context=` to every entry point)
+CTX = {"np": numpy, "FR": FR, "NAN": float("nan"), "Opaque": Opaque, "CAT": CAT, "KONST": KONST, "NONE": lambda: None}
+
+
+def gen_value_term(rng):
+    """a Python factor whose VALUE is not a plain column: constant, list, array of any rank, data frame, dict, object"""
+    v, w = rng.sample(NUM, 2)
+    pool = [
+        # constants
+        "{1.5}", "{2}", "{True}", "{NAN}", "{NONE()}", "{np.float32(2.5)}", "{np.int64(3)}", "{np.bool_(True)}", "{np.float64(NAN)}",
+        f"{{{v}.max()}}", "{k.max()}",
+        # one column, other storage
+        f"{{{v}.to_list()}}", f"{{{v}.to_list()}}", f"{{{v}.to_numpy()}}", f"{{{v}.to_numpy()}}",
+        # tables
+        f"{{np.stack([{v}.to_numpy(), {w}.to_numpy()], axis=1)}}", f"{{{v}.to_numpy().reshape(-1, 1)}}",
+        f"{{np.stack([{v}.to_numpy(), {w}.to_numpy()], axis=1)}}", f"{{FR({v}, {w})}}", f"{{FR({v})}}", f"{{FR({v}, {w}, rid)}}",
+        # dicts
+        f"{{dict(u={v}, w={w}.to_list())}}", f"{{dict(u={v}.to_numpy(), w={w})}}", f"{{dict(__h={v}, u={w})}}",
+        f"{{dict(u=dict(p={v}, q={w}.to_numpy()), s=1.5)}}", f"{{dict(u=1.5, w={w})}}", f"{{dict(u={v}, __h=NAN)}}",
+        f"{{dict(p={v}.to_list(), q=dict(__z={w}.to_list(), r=rid))}}", "{CAT(u=A, w=B)}", "{CAT(u=B)}",
+        "{KONST(2.5)}", "{KONST(NAN)}",
+        # what cannot be a column
+        "{np.array(1.5)}", "{np.array(NAN)}", f"{{np.zeros((len({v}), 1, 1))}}", "{Opaque()}",
+        # the explicit encoders on other storage
+        "C(A.to_list())", f"C({v}.to_numpy())", "hashed(A.to_list(), levels=3)", f"hashed({v}.to_list(), levels=2)",
+    ]
+    return rng.choice(pool)
+
+
+FAULTS = ["C(A, contr.treatment(base='w'))", "C(B, contr.treatment(base='w'))", "{np.zeros((len(a), 1, 1))}", "{Opaque()}"]
 
 
 def gen_index(rng, n):
@@ -123,6 +234,8 @@ def gen_term(rng, allow_stateful=True):
     ]
     if allow_stateful:
         pool += [f"center({v})", f"scale({v})", f"poly({v}, 2)", f"bs({v}, df=3)"]
+    if rng.random() < 0.3:
+        return gen_value_term(rng)
     return rng.choice(pool)
 
 
@@ -175,21 +288,29 @@ def gen_history(rng, tier):
         if t not in pool:
             pool.append(t)
     calls = []
-    for i in range(rng.choice([2, 2, 3])):
+    for i in range(rng.choice([2, 2, 3, 3, 4])):
         replay = None
-        if i > 0 and rng.random() < 0.25:
+        fault = None
+        if i > 0 and rng.random() < 0.2:
             replay = rng.randrange(i)  # pass the ModelSpec(s) that call `replay` returned (its formula when it raised)
             formula = calls[replay]["formula"]
         else:
             formula, _ = gen_formula(rng, pool)
+            if rng.random() < 0.25:
+                # a call that RAISES after (most of) its factors were evaluated: the later calls find them in the caches
+                fault = rng.choice(FAULTS)
+                formula = formula + " + " + fault
         calls.append(dict(
             formula=formula,
             replay=replay,
-            policy=rng.choice(["drop", "drop", "drop", "raise", "ignore"]),
+            fault=fault,
+            policy=rng.choice(["drop", "drop", "drop", "raise", "raise", "ignore"]),
             caller=gen_caller(rng, n),
             output=rng.choice(outs),
         ))
-    return dict(kind="history", nrows=n, data=gen_data(rng, n), index=index, frame=frame, mat=mat, calls=calls)
+    # how THE object is obtained: the materializer class called on the data, or `ModelSpec.get_materializer(data)`
+    return dict(kind="history", nrows=n, data=gen_data(rng, n), index=index, frame=frame, mat=mat, calls=calls,
+                obj=rng.choice(["class", "class", "spec"]))
 
 
 def gen_case(rng, tier, malformed=False):
@@ -197,8 +318,12 @@ def gen_case(rng, tier, malformed=False):
     formula, nparts = gen_formula(rng)
     while malformed and formula.endswith("~ 0"):  # (an empty part with more drop positions than rows: not modelled)
         formula, nparts = gen_formula(rng)
-    frame = "arrow" if rng.random() < 0.12 else "pandas"
-    index = gen_index(rng, n) if frame == "pandas" else {"kind": "default", "labels": list(range(n))}
+    r = rng.random()
+    frame = ("arrow" if r < 0.12 else "dict" if r < 0.17 else "recarray" if r < 0.2 else "nwframe" if r < 0.25 else "pandas")
+    data = gen_data(rng, n)
+    if frame == "dict" and n == 1 and not any(data[v][0] is None for v in ("k", "A", "B")):
+        frame = "scalars"
+    index = gen_index(rng, n) if frame in ("pandas", "nwframe") else {"kind": "default", "labels": list(range(n))}
     structured = nparts > 1
     if structured:
         entry = rng.choice(["sugar", "formula", "modelspecs", "modelspecs", "materializer", "nonjoint"])
@@ -206,7 +331,8 @@ def gen_case(rng, tier, malformed=False):
             entry = "modelspecs"
     else:
         entry = rng.choice(["sugar", "formula", "modelspec", "modelspec", "materializer"])
-    mat = "narwhals" if frame == "arrow" else rng.choice(["pandas", "pandas", "pandas", "narwhals"])
+    mat = ("narwhals" if frame in ("arrow", "nwframe") else "pandas" if frame in ("dict", "scalars", "recarray")
+           else rng.choice(["pandas", "pandas", "pandas", "narwhals"]))
     outs = ["pandas", "pandas", "numpy", "sparse"] + (["narwhals"] if mat == "narwhals" and entry != "nonjoint" else [])
     r = rng.random()
     if malformed:
@@ -220,11 +346,14 @@ def gen_case(rng, tier, malformed=False):
     return dict(
         kind="oor" if malformed else "call",
         nrows=n,
-        data=gen_data(rng, n),
+        data=data,
         index=index,
         frame=frame,
         formula=formula,
         policy=rng.choice(["drop", "drop", "drop", "raise", "ignore"]),
+        # how the caller writes the policy: its string, the NAAction member, or a string that is no policy
+        na=rng.choice(["text", "text", "member", "member", "bad"]) if rng.random() < 0.5 else "text",
+        bad_na=rng.choice(["Drop", "omit", "", "DROP", "none", "drop ", "raise!"]),
         caller=caller,
         entry=entry,
         overrides=rng.random() < 0.5,
@@ -236,28 +365,104 @@ def gen_case(rng, tier, malformed=False):
     )
 
 
+UNIT_TYPES = ["none", "str", "int", "float", "nan", "bool", "np_float64", "np_nan", "np_float32", "np_int64", "np_bool",
+              "list", "list", "dict", "dict", "nw", "nw_arrow", "series", "series", "series_idx", "frame", "array0",
+              "array0_nan", "array1", "array1", "array2", "array2", "array3", "csc", "csr", "tuple", "object"]
+
+
+def gen_cells(rng, n, pnull):
+    """cell `i` holds the number `i` (so that what survives a removal is visible), or None"""
+    return [None if rng.random() < pnull else i for i in range(n)]
+
+
+def gen_unit_value(rng, depth=0, nulls=True):
+    t = rng.choice(UNIT_TYPES)
+    n = rng.randint(0, 7)
+    pnull = rng.choice([0.0, 0.2, 0.5]) if nulls else 0.0
+    if t in ("list", "nw", "nw_arrow", "series", "series_idx", "array1"):
+        return dict(t=t, cells=gen_cells(rng, n, pnull))
+    if t in ("frame", "array2", "csc", "csr"):
+        k = rng.randint(0, 3)
+        return dict(t=t, n=n, cols=[gen_cells(rng, n, pnull) for _ in range(k)])
+    if t == "array3":
+        return dict(t=t, n=n)
+    if t == "dict":
+        items = []
+        for j in range(rng.randint(0, 3)):
+            key = rng.choice(["u", "v", "__h", "w"]) + str(j)
+            sub = gen_unit_value(rng, depth + 1, nulls) if depth < 2 else dict(t="list", cells=gen_cells(rng, n, pnull))
+            items.append([key, sub])
+        return dict(t=t, items=items)
+    return dict(t=t)
+
+
+def gen_unit(rng, tier):
+    op = rng.choice(["find_nulls", "drop_rows", "drop_rows"])
+    # (drop_rows: every cell holds its row number, so that what is left can be read off; nulls play no role there)
+    value = gen_unit_value(rng, nulls=op == "find_nulls")
+    c = dict(kind="unit", op=op, value=value, wrap=rng.random() < 0.3)
+    if op == "drop_rows":
+        n = value.get("n", len(value.get("cells", []))) or 0
+        r = rng.random()
+        if r < 0.15:
+            idx = []
+        elif r < 0.85:
+            idx = [rng.randrange(max(1, n)) for _ in range(rng.randint(1, max(1, n)))]  # unsorted, may repeat
+            if rng.random() < 0.5:
+                idx = sorted(set(idx))
+        else:
+            idx = [rng.randrange(max(1, n)) for _ in range(rng.randint(0, 2))] + [n + rng.randint(0, 2)]  # outside
+        c["indices"] = idx
+        c["as_tuple"] = rng.random() < 0.25
+        # pandas row labels of a Series with an index of its own (non-unique on purpose)
+        c["labels"] = [rng.randrange(max(1, n // 2 + 1)) for _ in range(n)]
+    return c
+
+
 def cases(rng, tier):
     n = {"quick": 1400, "thorough": 9000, "search": 250}[tier]
     for _ in range(n):
         yield gen_case(rng, tier)
     for _ in range(max(6, n // 40)):
         yield gen_case(rng, tier, malformed=True)
-    for _ in range({"quick": 90, "thorough": 1200, "search": 60}[tier]):
+    for _ in range({"quick": 110, "thorough": 1200, "search": 60}[tier]):
         yield gen_history(rng, tier)
+    for _ in range({"quick": 500, "thorough": 4000, "search": 120}[tier]):
+        yield gen_unit(rng, tier)
 
 
 def describe(c):
+    if c["kind"] == "unit":
+        return f"unit:{c['op']}:{c['value']['t']}{'(wrapped)' if c['wrap'] else ''}"
     if c["kind"] == "history":
-        pols = "/".join(k["policy"] + ("*" if k.get("replay") is not None else "") for k in c["calls"])
+        pols = "/".join(k["policy"] + ("*" if k.get("replay") is not None else "") + ("!" if k.get("fault") else "")
+                        for k in c["calls"])
         return f"history[{pols}],{c['mat']}/{c['frame']},idx={c['index']['kind']}"
-    return f"{c['entry']},{c['policy']},{c['mat']}/{c['frame']},{c['output']},idx={c['index']['kind']},caller={'none' if c['caller'] is None else 'set'}"
+    return (f"{c['entry']},{c['policy']}{'' if c.get('na', 'text') == 'text' else ':' + c['na']},{c['mat']}/{c['frame']},"
+            f"{c['output']},idx={c['index']['kind']},caller={'none' if c['caller'] is None else 'set'}")
 
 
 def _has_null(c):
     return any(v is None for col in c["data"].values() for v in col)
 
 
+def _unit_has_rows(v):
+    if v["t"] == "dict":
+        return any(_unit_has_rows(x) for _, x in v["items"])
+    return bool(v.get("n") or v.get("cells"))
+
+
+def _unit_has_null(v):
+    if v["t"] == "dict":
+        return any(_unit_has_null(x) for _, x in v["items"])
+    return any(x is None for col in ([v["cells"]] if "cells" in v else v.get("cols", [])) for x in col)
+
+
 def nontrivial(c):
+    if c["kind"] == "unit":
+        if c["op"] == "drop_rows":
+            return _unit_has_rows(c["value"]) and bool(c["indices"])
+        return _unit_has_null(c["value"])
     if c["kind"] == "history":
         return c["nrows"] >= 2 and any(k["policy"] == "drop" and (_has_null(c) or bool(k["caller"])) for k in c["calls"])
     return c["kind"] == "call" and c["policy"] == "drop" and (_has_null(c) or bool(c["caller"])) and c["nrows"] >= 2
@@ -293,13 +498,39 @@ def make_frame(c):
     df = pandas.DataFrame(cols)
     assert df["A"].dtype == object
     df.index = pandas.Index(c["index"]["labels"])
+    return wrap_input(c["frame"], df)
+
+
+def wrap_input(kind, df):
+    """the data object handed to formulaic: the pandas frame itself, or one of the other accepted containers"""
+    if kind == "dict":  # PandasMaterializer._init: pandas.DataFrame(dict of columns)
+        return {name: df[name].values for name in df.columns}
+    if kind == "scalars":  # PandasMaterializer._init: all values scalar -> a frame of one row
+        return {name: df[name].iloc[0] for name in df.columns}
+    if kind == "recarray":  # PandasMaterializer._init: pandas.DataFrame.from_records
+        return df.to_records(index=False)
+    if kind == "nwframe":  # a narwhals-wrapped pandas frame (NarwhalsMaterializer; narwhals output stays narwhals)
+        import narwhals.stable.v1 as nw
+
+        return nw.from_native(df, eager_only=True)
     return df
 
 
-def subframe(df, pos):
-    if isinstance(df, pandas.DataFrame):
-        return df.iloc[list(pos)]
-    return df.take(list(pos))
+def subframe(data, pos):
+    pos = list(pos)
+    if isinstance(data, pandas.DataFrame):
+        return data.iloc[pos]
+    if isinstance(data, dict):
+        if all(numpy.isscalar(v) for v in data.values()):
+            data = {k: numpy.array([v]) for k, v in data.items()}
+        return {k: v[pos] for k, v in data.items()}
+    if isinstance(data, numpy.recarray):
+        return data[pos]
+    if hasattr(data, "to_native"):
+        import narwhals.stable.v1 as nw
+
+        return nw.from_native(nw.to_native(data).iloc[pos], eager_only=True)
+    return data.take(pos)
 
 
 # ----------------------------------------------------------------------------- observation helpers
@@ -311,56 +542,89 @@ def cell_is_null(x):
         return True
     if isinstance(x, (float, numpy.floating)):
         return bool(x != x)
+    if isinstance(x, (numpy.datetime64, numpy.timedelta64)):
+        return bool(x != x)
     return False
 
 
-def independent_nulls(values):
-    w = getattr(values, "__wrapped__", values)
-    if isinstance(w, dict):
-        out = set()
-        for v in w.values():
-            out |= independent_nulls(v)
-        return out
-    if isinstance(w, pandas.DataFrame):
-        rows = w.values.tolist()
-    elif isinstance(w, (pandas.Series, pandas.Categorical)):
-        rows = [x for x in w.tolist()]
-    elif isinstance(w, numpy.ndarray):
-        rows = w.tolist()
-    elif hasattr(w, "to_list"):  # narwhals series
-        rows = w.to_list()
-    elif isinstance(w, list):
-        rows = w
-    else:
-        return set()
-    out = set()
-    for i, r in enumerate(rows):
-        cells = r if isinstance(r, list) else [r]
-        if any(cell_is_null(x) for x in cells):
-            out.add(i)
-    return out
+def _null_pos(xs):
+    return [i for i, x in enumerate(xs) if cell_is_null(x)]
 
 
-def store_of(values):
+def value_desc(values):
+    """The SHAPE of an evaluated factor value, by the type find_nulls / as_columns / drop_rows dispatch on, with the
+    positions of the null cells of every column (independent per-cell definition). This is what the model is told."""
+    import scipy.sparse as spsparse
+
     w = getattr(values, "__wrapped__", values)
+    if w is None:
+        return {"t": "none"}
     if isinstance(w, dict):
-        w = next(iter(w.values()), None)
-        w = getattr(w, "__wrapped__", w)
-    if isinstance(w, (pandas.Series, pandas.DataFrame)):
-        return "series"
-    if isinstance(w, numpy.ndarray):
-        return "ndarray"
+        return {"t": "dict", "items": [{"hidden": isinstance(k, str) and k.startswith("__"), "v": value_desc(v)}
+                                       for k, v in w.items()]}
+    if isinstance(w, str):
+        return {"t": "scalar", "k": "str", "null": False}
+    if isinstance(w, (bool, int, float)):  # (numpy.float64 derives from float)
+        return {"t": "scalar", "k": "num", "null": cell_is_null(w)}
+    if isinstance(w, (numpy.number, numpy.bool_)) or w is pandas.NA or w is pandas.NaT:
+        # (scalars that derive from neither int nor float: numpy numbers, pandas' null scalars)
+        return {"t": "scalar", "k": "np", "null": cell_is_null(w)}
     if isinstance(w, list):
-        return "list"
-    if hasattr(w, "to_list") and hasattr(w, "is_null"):
-        return "nw"
-    return "other:" + type(w).__name__
+        return {"t": "list", "len": len(w), "nulls": _null_pos(w)}
+    if isinstance(w, pandas.DataFrame):
+        return {"t": "frame", "n": int(w.shape[0]), "cols": [_null_pos(w.iloc[:, j].tolist()) for j in range(w.shape[1])]}
+    if isinstance(w, pandas.Series):
+        return {"t": "series", "len": len(w), "nulls": _null_pos(w.tolist())}
+    if isinstance(w, numpy.ndarray):
+        if w.ndim == 0:
+            return {"t": "array0", "null": cell_is_null(w.item())}
+        if w.ndim == 1:
+            return {"t": "array1", "len": int(w.shape[0]), "nulls": _null_pos(w.tolist())}
+        if w.ndim == 2:
+            return {"t": "array2", "n": int(w.shape[0]), "cols": [_null_pos(w[:, j].tolist()) for j in range(w.shape[1])]}
+        return {"t": "arrayN", "n": int(w.shape[0])}
+    if isinstance(w, spsparse.spmatrix):
+        d = w.toarray()
+        return {"t": "sparse", "csc": isinstance(w, spsparse.csc_matrix), "n": int(d.shape[0]),
+                "cols": [_null_pos(d[:, j].tolist()) for j in range(d.shape[1])]}
+    if hasattr(w, "to_list") and hasattr(w, "is_null"):  # narwhals series
+        xs = w.to_list()
+        return {"t": "nw", "len": len(xs), "nulls": _null_pos(xs)}
+    return {"t": "other", "type": type(w).__name__}
+
+
+def desc_null_rows(d):
+    """rows of the described value in which some cell (of some column, of some member, hidden or not) is null"""
+    t = d["t"]
+    if t in ("list", "nw", "series", "array1"):
+        return set(d["nulls"])
+    if t in ("array2", "frame", "sparse"):
+        return set(i for col in d["cols"] for i in col)
+    if t == "dict":
+        out = set()
+        for it in d["items"]:
+            out |= desc_null_rows(it["v"])
+        return out
+    return set()
+
+
+def desc_const_null(d):
+    """does the described value contain a constant (scalar / 0-d array) that is null?"""
+    t = d["t"]
+    if t == "scalar" and d["k"] != "str":
+        return bool(d["null"])
+    if t == "array0":
+        return bool(d["null"])
+    if t == "dict":
+        return any(desc_const_null(it["v"]) for it in d["items"])
+    return False
 
 
 def enc_of(ef):
     enc = ef.metadata.encoder
     if enc is None:
-        return "default"
+        # (a value declared to be of kind 'constant' goes through `_encode_constant`, not through `drop_rows`)
+        return "constant" if ef.metadata.kind.value == "constant" else "default"
     q = getattr(enc, "__qualname__", "")
     if q.startswith("C."):
         return "C"
@@ -388,7 +652,9 @@ def probe(c, df, matname):
     from formulaic import Formula
     from formulaic.utils.null_handling import find_nulls
 
-    m = _mat_class(matname)(df)
+    m = _mat_class(matname)(df, context=CTX)
+    # (the probe only wants the evaluated values: it must not depend on what the null check does under any policy)
+    m._check_for_nulls = lambda *a, **k: None
     try:  # step 1 (factor evaluation) fills the cache even when building the matrix fails later
         m.get_model_matrix(c["formula"], na_action="ignore", output="numpy")
     except Exception:
@@ -406,12 +672,18 @@ def probe(c, df, matname):
         parts.append({"exprs": exprs, "intercept": any(str(t) == "1" for t in sub)})
     factors = {}
     for expr, ef in m.factor_cache.items():
-        if ef.metadata.kind.value == "constant":
+        if ef.factor.eval_method.value == "literal":  # (a numeric literal that scales a term: not an evaluated factor of a part)
             continue
+        d = value_desc(ef.values)
+        try:
+            flagged = sorted(int(i) for i in find_nulls(ef.values))
+        except Exception as e:  # find_nulls raises for some values; which ones is the model's business
+            flagged = {"error": err_kind(e)}
         factors[expr] = {
-            "nulls": sorted(int(i) for i in find_nulls(ef.values)),
-            "ind": sorted(independent_nulls(ef.values)),
-            "store": store_of(ef.values),
+            "value": d,
+            "nulls": flagged,  # what the implementation's find_nulls says (oracle only; the model is not told)
+            "ind": sorted(desc_null_rows(d)),
+            "const_null": desc_const_null(d),
             "enc": enc_of(ef),
         }
     return {"parts": parts, "factors": factors}
@@ -421,6 +693,16 @@ def err_kind(e):
     name, msg = type(e).__name__, str(e)
     if isinstance(e, ValueError) and "contains null values after evaluation" in msg:
         return "NullsPresent"
+    if isinstance(e, ValueError) and "Constant value is null" in msg:
+        return "ConstantNull"
+    if isinstance(e, ValueError) and "Cannot check for null indices for arrays of more than 2 dimensions" in msg:
+        return "TooManyDims"
+    if isinstance(e, ValueError) and "No implementation of `find_nulls()`" in msg:
+        return "NoFindNulls"
+    if isinstance(e, ValueError) and "No implementation of `drop_rows()`" in msg:
+        return "NoDropRows"
+    if isinstance(e, ValueError) and "is not a valid NAAction" in msg:
+        return "InvalidNAAction"
     if isinstance(e, IndexError):
         return "IndexError"
     if name in ("ValueError", "ArrowInvalid") and any(
@@ -463,15 +745,30 @@ def observe_part(mm, output):
     return out, names, arr
 
 
+def na_value(c):
+    """the `na_action` argument as the caller of this case writes it"""
+    kind = c.get("na", "text")
+    if kind == "member":
+        from formulaic.materializers.types import NAAction
+
+        return NAAction(c["policy"])
+    if kind == "bad":
+        return c["bad_na"]
+    return c["policy"]
+
+
 def run_entry(c, df, d):
     """the real call through the entry point named by the case; returns (result, per-part materializer names)"""
     import formulaic
     from formulaic import Formula, ModelSpec
 
-    opts = {"na_action": c["policy"], "output": c["output"]}
+    opts = {"na_action": na_value(c), "output": c["output"]}
     if c["mat"] == "narwhals" and c["frame"] == "pandas":
         opts["materializer"] = "narwhals"
-    kw = {} if d is None else {"drop_rows": d}
+    if c["frame"] in ("dict", "scalars"):
+        # (the registry knows the input type 'dict' but looks plain dicts up as 'builtins.dict': name the materializer)
+        opts["materializer"] = "pandas"
+    kw = {"context": CTX} if d is None else {"context": CTX, "drop_rows": d}
     e = c["entry"]
     if e == "sugar":
         return formulaic.model_matrix(c["formula"], df, **kw, **opts), None
@@ -479,16 +776,22 @@ def run_entry(c, df, d):
         return Formula(c["formula"]).get_model_matrix(df, **kw, **opts), None
     if e == "materializer":
         o2 = {k: v for k, v in opts.items() if k != "materializer"}
-        return _mat_class(c["mat"])(df).get_model_matrix(c["formula"], **kw, **o2), None
+        kw2 = {k: v for k, v in kw.items() if k != "context"}
+        return _mat_class(c["mat"])(df, context=CTX).get_model_matrix(c["formula"], **kw2, **o2), None
     if e in ("modelspec", "modelspecs", "nonjoint"):
         fit_opts = {k: v for k, v in opts.items() if k != "na_action"}
+        spec = None
         if c["fitted"]:
             # a spec that has already been used once on the same data (default policy), then re-used
-            spec = Formula(c["formula"]).get_model_matrix(df, **fit_opts).model_spec
+            try:
+                spec = Formula(c["formula"]).get_model_matrix(df, context=CTX, **fit_opts).model_spec
+            except Exception:
+                spec = None  # (the default policy cannot build this matrix: the spec is used unfitted)
+        if spec is not None:
             if c["overrides"]:
-                call_opts = {"na_action": c["policy"]}
+                call_opts = {"na_action": na_value(c)}
             else:
-                spec = ModelSpec.from_spec(spec, na_action=c["policy"])
+                spec = ModelSpec.from_spec(spec, na_action=na_value(c))
                 call_opts = {}
         elif c["overrides"]:
             spec, call_opts = ModelSpec.from_spec(Formula(c["formula"])), dict(opts)
@@ -524,16 +827,25 @@ def clean_error(c, df, probes, rerun=None):
     survive, with no drop set (policy raise; for `ignore` the null rows stay, so policy ignore)? Then the failure
     has nothing to do with removing rows (e.g. output='narwhals' cannot encode a one-level factor).
     `rerun(frame, policy)`: how to repeat the call (default: through the entry point named by the case)."""
-    if c["kind"] != "call":
+    if c["kind"] not in ("call", "oor"):
         return None
     mat = c["mat"]
     K = expected_rows(c, probes[mat] if mat in probes else next(iter(probes.values())))
-    c2 = dict(c, policy="ignore" if c["policy"] == "ignore" else "raise", caller=None)
+    c2 = dict(c, policy="ignore" if c["policy"] == "ignore" else "raise", caller=None, na="text")
     try:
         if rerun is not None:
             rerun(subframe(df, K), c2["policy"])
         else:
             run_entry(c2, subframe(df, K), None)  # same entry point, same options, nothing to drop
+    except Exception as e:
+        return type(e).__name__
+    # ... or on the whole frame when nothing is looked at and nothing is removed (na_action='ignore', no drop set): whether a
+    # container accepts e.g. a constant column can depend on how many rows there are
+    try:
+        if rerun is not None:
+            rerun(df, "ignore")
+        else:
+            run_entry(dict(c2, policy="ignore"), df, None)
     except Exception as e:
         return type(e).__name__
     return None
@@ -555,7 +867,9 @@ def observe_call(c, df, probes, runner, sub=True, rerun=None, keep=None):
     except Exception as e:
         out["error"] = err_kind(e)
         out["msg"] = type(e).__name__ + ": " + str(e)[:160]
-        out["clean_error"] = None if out["error"] == "NullsPresent" else clean_error(c, df, probes, rerun)
+        # (a null that is found — in a row or in a constant — and an invalid policy are never "clean" failures)
+        out["clean_error"] = (None if out["error"] in ("NullsPresent", "ConstantNull", "InvalidNAAction")
+                              else clean_error(c, df, probes, rerun))
         return out
     parts, raw = [], []
     try:
@@ -575,10 +889,12 @@ def observe_call(c, df, probes, runner, sub=True, rerun=None, keep=None):
     out["final"] = None if d is None else sorted(int(x) for x in d)
     # --- metamorphic check: the matrix of the sub-frame of the rows that must survive
     out["sub"] = None
-    if sub and c["policy"] == "drop" and c["entry"] != "nonjoint" and c["kind"] == "call" and is_stateless(c):
+    if (sub and c["policy"] == "drop" and c.get("na", "text") != "bad" and c["entry"] != "nonjoint"
+            and c["kind"] == "call" and is_stateless(c)):
         K = expected_rows(c, probes[c["mat"]])
         try:
-            sub = leaves(_mat_class(c["mat"])(subframe(df, K)).get_model_matrix(c["formula"], na_action="raise", output=c["output"]))
+            sub = leaves(_mat_class(c["mat"])(subframe(df, K), context=CTX).get_model_matrix(
+                c["formula"], na_action="raise", output=c["output"]))
             ok = len(sub) == len(raw)
             why = None if ok else "number of parts differs"
             for j, (mm, (names, arr)) in enumerate(zip(sub, raw)):
@@ -596,6 +912,8 @@ def observe_call(c, df, probes, runner, sub=True, rerun=None, keep=None):
 
 
 def impl(c):
+    if c["kind"] == "unit":
+        return impl_unit(c)
     if c["kind"] == "history":
         return impl_history(c)
     df = make_frame(c)
@@ -618,7 +936,7 @@ def call_case(c, k):
     """call `k` of a history as a single-call case (entry point: the materializer's method)"""
     return dict(kind="call", nrows=c["nrows"], data=c["data"], index=c["index"], frame=c["frame"], mat=c["mat"],
                 formula=k["formula"], policy=k["policy"], caller=k["caller"], output=k["output"],
-                entry="materializer", overrides=False, fitted=False)
+                entry="materializer", overrides=False, fitted=False, na="text")
 
 
 def _same_values(raw_a, raw_b):
@@ -639,8 +957,16 @@ def _same_values(raw_a, raw_b):
 
 def impl_history(c):
     df = make_frame(c)
-    M = _mat_class(c["mat"])
-    m = M(df)  # THE object: every call of the history is made on it
+    M0 = _mat_class(c["mat"])
+    M = lambda data: M0(data, context=CTX)
+    if c.get("obj") == "spec":
+        from formulaic import ModelSpec
+
+        m = ModelSpec(formula="rid", materializer=c["mat"]).get_materializer(df, context=CTX)
+        assert type(m) is M0
+    else:
+        m = M(df)
+    # m is THE object: every call of the history is made on it
     out = {"probes": [], "calls": [], "fresh": [], "replayed": [], "same_values": []}
     specs = []  # per call: the ModelSpec(s) the object returned (None: the call raised)
     for k in c["calls"]:
@@ -679,6 +1005,183 @@ def history_calls(c, o):
     return [(i, call_case(c, k), dict(o["calls"][i], probe=o["probes"][i])) for i, k in enumerate(c["calls"])]
 
 
+
+# ----------------------------------------------------------------------------- unit stream: find_nulls / drop_rows directly
+
+ROWS_TYPES = ("list", "nw", "series", "array1", "array2", "arrayN", "sparse")
+
+
+def _fl(cells):
+    """cell `i` holds the number i + 1 (never 0: a sparse matrix does not store zeros), None cells are NaN"""
+    return [numpy.nan if x is None else float(x + 1) for x in cells]
+
+
+def build_unit_value(v, labels=None):
+    import narwhals.stable.v1 as nw
+    import scipy.sparse as spsparse
+
+    t = v["t"]
+    consts = {"none": None, "str": "abc", "int": 3, "float": 1.5, "nan": float("nan"), "bool": True,
+              "np_float64": numpy.float64(1.5), "np_nan": numpy.float64("nan"), "np_float32": numpy.float32(2.5),
+              "np_int64": numpy.int64(3), "np_bool": numpy.bool_(True), "tuple": (1.0, 2.0),
+              "array0": numpy.array(1.5), "array0_nan": numpy.array(numpy.nan)}
+    if t in consts:
+        return consts[t]
+    if t == "object":
+        return Opaque()
+    if t == "list":
+        return [None if x is None else float(x + 1) for x in v["cells"]]
+    if t == "nw":
+        return nw.from_native(pandas.Series(_fl(v["cells"]), dtype=float, name="x"), series_only=True)
+    if t == "nw_arrow":
+        import pyarrow as pa
+
+        arr = pa.chunked_array([pa.array([None if x is None else float(x + 1) for x in v["cells"]], type=pa.float64())])
+        return nw.from_native(arr, series_only=True).alias("x")
+    if t == "series":
+        return pandas.Series(_fl(v["cells"]), dtype=float)
+    if t == "series_idx":
+        return pandas.Series(_fl(v["cells"]), dtype=float, index=(labels or list(range(len(v["cells"]))))[:len(v["cells"])])
+    if t == "array1":
+        return numpy.array(_fl(v["cells"]), dtype=float)
+    if t in ("frame", "array2", "csc", "csr"):
+        n, k = v["n"], len(v["cols"])
+        dense = numpy.empty((n, k), dtype=float)
+        for j, col in enumerate(v["cols"]):
+            dense[:, j] = _fl(col)
+        if t == "array2":
+            return dense
+        if t == "frame":
+            return pandas.DataFrame({f"c{j}": dense[:, j] for j in range(k)}, index=range(n))
+        return (spsparse.csc_matrix if t == "csc" else spsparse.csr_matrix)(dense)
+    if t == "array3":
+        return numpy.zeros((v["n"], 1, 1))
+    if t == "dict":
+        return {key: build_unit_value(sub, labels) for key, sub in v["items"]}
+    raise ValueError(t)
+
+
+def _ids(xs):
+    return [None if cell_is_null(x) else int(round(float(x))) - 1 for x in xs]
+
+
+def observe_value(r):
+    """what `drop_rows` returned: its type, shape[0] where it has one, the cells that survived (per column)"""
+    import scipy.sparse as spsparse
+
+    if isinstance(r, list):
+        return {"t": "list", "n": None, "cols": [_ids(r)]}
+    if isinstance(r, pandas.Series):
+        return {"t": "series", "n": None, "cols": [_ids(r.tolist())], "index": [lab(x) for x in r.index]}
+    if isinstance(r, numpy.ndarray):
+        if r.ndim == 1:
+            return {"t": "array1", "n": None, "cols": [_ids(r.tolist())]}
+        if r.ndim == 2:
+            return {"t": "array2", "n": int(r.shape[0]), "cols": [_ids(r[:, j].tolist()) for j in range(r.shape[1])]}
+        return {"t": "arrayN" if r.ndim > 2 else "array0", "n": int(r.shape[0]) if r.ndim else None, "cols": []}
+    if isinstance(r, spsparse.spmatrix):
+        d = r.toarray()
+        t = "csc" if isinstance(r, spsparse.csc_matrix) else "csr" if isinstance(r, spsparse.csr_matrix) else "sparse:" + type(r).__name__
+        return {"t": t, "n": int(d.shape[0]), "cols": [_ids(d[:, j].tolist()) for j in range(d.shape[1])]}
+    if hasattr(r, "to_list") and hasattr(r, "is_null"):
+        return {"t": "nw", "n": None, "cols": [_ids(r.to_list())]}
+    if r is None or isinstance(r, (str, bool, int, float, numpy.generic)):
+        return {"t": "none" if r is None else "scalar"}
+    return {"t": "other:" + type(r).__name__}
+
+
+def impl_unit(c):
+    from formulaic.materializers.types import FactorValues
+    from formulaic.utils.null_handling import drop_rows, find_nulls
+
+    try:
+        raw = build_unit_value(c["value"], c.get("labels"))
+        value = FactorValues(raw) if c["wrap"] else raw
+        desc = value_desc(raw)
+    except Exception as e:  # (the generator asked for something the libraries cannot build)
+        return {"build_error": type(e).__name__ + ": " + str(e)[:160]}
+    out = {"value": desc}
+    try:
+        if c["op"] == "find_nulls":
+            out["nulls"] = sorted(int(i) for i in find_nulls(value))
+        else:
+            idx = tuple(c["indices"]) if c.get("as_tuple") else list(c["indices"])
+            out["result"] = observe_value(drop_rows(value, idx))
+    except Exception as e:
+        out["error"] = err_kind(e)
+        out["msg"] = type(e).__name__ + ": " + str(e)[:160]
+    return out
+
+
+def _agree_unit(c, o, m):
+    oe, me = o.get("error"), m.get("error")
+    if oe or me:
+        return None if oe == me else f"{c['op']}: impl {oe or 'no error'} ({o.get('msg', '')}) vs model {me or 'no error'}"
+    if c["op"] == "find_nulls":
+        return None if o["nulls"] == m.get("nulls") else f"find_nulls: impl flags rows {o['nulls']}, model {m.get('nulls')}"
+    r = o["result"]
+    lay = lambda t: "sparse" if t in ("csc", "csr") else t  # (which compressed layout comes back is not compared)
+    if lay(r.get("t")) != lay(m.get("t")):
+        return f"drop_rows: impl returns a {r.get('t')}, model a {m.get('t')}"
+    for what in ("n", "cols"):
+        if r.get(what) != m.get(what):
+            return f"drop_rows: impl returns {what}={r.get(what)}, model {m.get(what)}"
+    return None
+
+
+def _desc_uncheckable(d):
+    t = d["t"]
+    if t in ("arrayN", "other"):
+        return True
+    if t == "dict":
+        return any(_desc_uncheckable(it["v"]) for it in d["items"])
+    return False
+
+
+def _oracle_unit(c, o):
+    """find_nulls: exactly the rows with a null cell; drop_rows: exactly the rows not listed, by position, same type"""
+    d = o["value"]
+    if c["op"] == "find_nulls":
+        if "error" in o:
+            if desc_const_null(d) or _desc_uncheckable(d):
+                return None  # a null constant, an array of more than two dimensions, an unknown type
+            return f"find_nulls raised {o['msg']} on a {d['t']} value made of columns and non-null constants"
+        if desc_const_null(d):
+            return f"find_nulls reports rows {o['nulls']} for a {d['t']} value that contains a constant which is null (every row is null)"
+        want = sorted(desc_null_rows(d))
+        if o["nulls"] != want:
+            return f"find_nulls flags rows {o['nulls']} of a {d['t']} value whose null cells are in rows {want}"
+        return None
+    if d["t"] not in ROWS_TYPES:
+        return None
+    n = d.get("n", d.get("len"))
+    idx = set(c["indices"])
+    if "error" in o:
+        if all(i < n for i in idx):
+            return f"drop_rows raised {o['msg']} on a {d['t']} value with {n} rows and positions {sorted(idx)} inside it"
+        return None
+    keep = [i for i in range(n) if i not in idx]
+    r = o["result"]
+    want_t = d["t"]
+    got_t = "sparse" if r["t"] in ("csc", "csr") else r["t"]
+    if got_t != want_t:
+        return f"drop_rows turned a {want_t} into a {r['t']}"
+    # (cell i holds the number i: what is left must be the cells at the positions not listed, in order)
+    src = c["value"]
+    cols = [src["cells"]] if "cells" in src else src.get("cols", [])
+    for j, col in enumerate(r["cols"]):
+        want = [None if cols[j][i] is None else i for i in keep]
+        if col != want:
+            return f"drop_rows(indices={c['indices']}) left cells {col} in column {j} of a {d['t']}; the rows not listed are {want}"
+    if r.get("n") is not None and r["n"] != len(keep):
+        return f"drop_rows(indices={c['indices']}) left {r['n']} rows of {n}; {len(keep)} are not listed"
+    if src["t"] == "series_idx" and r.get("index") is not None:
+        wl = [lab(c["labels"][i]) for i in keep]
+        if r["index"] != wl:
+            return f"drop_rows left the labels {r['index']}; the labels of the rows not listed are {wl}"
+    return None
+
+
 # ----------------------------------------------------------------------------- request / agree
 
 
@@ -696,6 +1199,13 @@ def _model_mat(c, m):
 
 
 def request(c, o):
+    if c["kind"] == "unit":
+        if "harness_exception" in o or "build_error" in o:
+            return dict(op="find_nulls", variant=VARIANT, value={"t": "none"})
+        if c["op"] == "find_nulls":
+            return dict(op="find_nulls", variant=VARIANT, value=o["value"])
+        return dict(op="drop_rows", variant=VARIANT, value=o["value"], indices=c["indices"],
+                    labels=[lab(x) for x in c["labels"]])
     if c["kind"] == "history" and not ("harness_exception" in o or "probe_error" in o):
         calls = []
         for i, ci, oi in history_calls(c, o):
@@ -719,8 +1229,7 @@ def _request_call(c, o, keys=False):
         parts.append(dict(
             mat=_model_mat(c, m),
             intercept=p["intercept"],
-            factors=[dict(nulls=pr["factors"][x]["nulls"], store=pr["factors"][x]["store"], enc=pr["factors"][x]["enc"],
-                          **({"key": x} if keys else {}))
+            factors=[dict(value=pr["factors"][x]["value"], enc=pr["factors"][x]["enc"], **({"key": x} if keys else {}))
                      for x in p["exprs"]],
         ))
     e = c["entry"]
@@ -729,6 +1238,8 @@ def _request_call(c, o, keys=False):
         n=c["nrows"],
         labels=[lab(x) for x in c["index"]["labels"]],
         policy=c["policy"],
+        **({"na_text": c["bad_na"]} if c.get("na", "text") == "bad" else
+           {"na_text": c["policy"]} if c.get("na", "text") == "text" else {}),
         output=c["output"],
         entry={"nonjoint": "modelspecs"}.get(e, e),
         structured=len(parts) > 1,
@@ -737,6 +1248,36 @@ def _request_call(c, o, keys=False):
         caller=c["caller"],
         parts=parts,
     )
+
+
+def _desc_has(d, t):
+    if d["t"] == t:
+        return True
+    return d["t"] == "dict" and any(_desc_has(it["v"], t) for it in d["items"])
+
+
+def _possible_nullcheck(c, o):
+    """the null-check errors that SOME evaluated factor of the call would raise under this policy"""
+    out = set()
+    for pr in o["probe"].values():
+        for f in pr["factors"].values():
+            if c["policy"] == "raise" and f["ind"]:
+                out.add("NullsPresent")
+            if f["const_null"]:
+                out.add("ConstantNull")
+            if _desc_has(f["value"], "arrayN"):
+                out.add("TooManyDims")
+            if _desc_has(f["value"], "other"):
+                out.add("NoFindNulls")
+            if VARIANT == "beforeValues" and (_desc_has(f["value"], "frame") or _desc_has_np(f["value"])):
+                out.add("NoFindNulls")
+    return out
+
+
+def _desc_has_np(d):
+    if d["t"] == "scalar":
+        return d["k"] == "np"
+    return d["t"] == "dict" and any(_desc_has_np(it["v"]) for it in d["items"])
 
 
 def _rid_pos(c, o, j):
@@ -748,8 +1289,10 @@ def _rid_pos(c, o, j):
 def agree(c, o, m):
     if "driver_error" in m:
         return "driver: " + m["driver_error"][:300]
-    if "harness_exception" in o or "probe_error" in o:
+    if "harness_exception" in o or "probe_error" in o or "build_error" in o:
         return None
+    if c["kind"] == "unit":
+        return _agree_unit(c, o, m)
     if c["kind"] == "history":
         if len(m.get("calls", [])) != len(c["calls"]):
             return f"model answered {len(m.get('calls', []))} calls of {len(c['calls'])}"
@@ -764,19 +1307,33 @@ def agree(c, o, m):
 def _agree_call(c, o, m):
     if c["kind"] == "oor" and "error" in o and "error" in m:
         return None  # positions outside the frame: which of IndexError / length mismatch comes first is not modelled
-    if o.get("error", "").startswith("Other:") and o.get("clean_error"):
+    if m.get("error") == "NotColumns":
+        # the model does not follow a value that cannot become columns beyond the null check: only that is compared
+        oe = o.get("error")
+        return (f"impl {oe} ({o.get('msg', '')}) vs model: null check passes, then the value cannot be made into columns"
+                if oe in NULLCHECK or oe == "InvalidNAAction" else None)
+    if "error" in o and o["error"] not in NULLCHECK + ("NoDropRows", "InvalidNAAction") and o.get("clean_error"):
         return None  # the formula cannot be materialised for this output even without nulls (encoders are not modelled)
     if "error" in o or "error" in m:
         oe, me = o.get("error"), m.get("error")
-        return None if oe == me else f"impl {oe or 'no error'} ({o.get('msg', '')}) vs model {me or 'no error'}"
+        if oe == me:
+            return None
+        if oe in NULLCHECK and me in NULLCHECK and oe in _possible_nullcheck(c, o):
+            # several factors fail the null check: which one is met first is the iteration order of a Python set
+            return None
+        return f"impl {oe or 'no error'} ({o.get('msg', '')}) vs model {me or 'no error'}"
     if len(o["parts"]) != len(m["parts"]):
         return f"impl returned {len(o['parts'])} parts, model {len(m['parts'])}"
     for j, (a, b) in enumerate(zip(o["parts"], m["parts"])):
         if a["nrows"] != b["nrows"]:
             return f"part {j}: impl has {a['nrows']} rows, model {b['nrows']}"
         rp = _rid_pos(c, o, j)
-        if rp is not None and a["kept"] is not None and a["kept"] != b["cols"][rp]:
-            return f"part {j}: impl kept rows {a['kept']}, model {b['cols'][rp]}"
+        if rp is not None and a["kept"] is not None and a["kept"] != b["cols"][rp][0]:
+            return f"part {j}: impl kept rows {a['kept']}, model {b['cols'][rp][0]}"
+        for fi, fcols in enumerate(b["cols"]):
+            for col in fcols:
+                if len(col) != b["nrows"]:
+                    return f"part {j}: model column of factor {fi} has {len(col)} cells in a matrix of {b['nrows']} rows"
         bi = b["index"]
         if isinstance(bi, dict):
             bi = [f"i:{i}" for i in range(bi["range"])]
@@ -797,8 +1354,10 @@ def _inc(xs):
 def oracle(c, o):
     if "harness_exception" in o:
         return "harness could not run the implementation: " + o["harness_exception"]
-    if "probe_error" in o:
+    if "probe_error" in o or "build_error" in o:
         return None
+    if c["kind"] == "unit":
+        return _oracle_unit(c, o)
     if c["kind"] == "history":
         return oracle_history(c, o)
     return _oracle_call(c, o)
@@ -843,11 +1402,16 @@ def _oracle_call(c, o):
     n, pol = c["nrows"], c["policy"]
     caller = set(c["caller"] or [])
     labels = [lab(x) for x in c["index"]["labels"]]
-    # (0) find_nulls against the independent definition
+    # (0) find_nulls against the independent definition (where it answers; when it may raise is the model's business)
     for mname, pr in o["probe"].items():
         for expr, f in pr["factors"].items():
-            if f["nulls"] != f["ind"]:
+            if isinstance(f["nulls"], list) and f["nulls"] != f["ind"]:
                 return f"find_nulls flags rows {f['nulls']} of `{expr}` ({mname}), but the cells that are None/NaN/NA are in rows {f['ind']}"
+    if c.get("na", "text") == "bad":
+        if o.get("error") != "InvalidNAAction":
+            return (f"na_action={c['bad_na']!r} is not a null policy, yet "
+                    + (f"the call raised {o.get('msg')}" if o.get("error") else "the call succeeded"))
+        return None
     mats = _part_mats(c, o)
     per_part = []
     for j, mname in enumerate(mats):
@@ -857,20 +1421,31 @@ def _oracle_call(c, o):
             s |= set(pr["factors"][x]["ind"])
         per_part.append(s)
     nulls = set().union(*per_part) if per_part else set()
+    # a constant (scalar / 0-d array) that is null: the factor is null in every row
+    const_null = any(o["probe"][mname]["factors"][x]["const_null"]
+                     for j, mname in enumerate(mats) for x in o["probe"][mname]["parts"][j]["exprs"])
     err = o.get("error")
-    if err and err != "NullsPresent" and o.get("clean_error"):
+    if err and err not in ("NullsPresent", "ConstantNull") and o.get("clean_error"):
         return None  # fails identically on the clean sub-frame without any drop: not a missing-data matter
     if pol == "raise":
-        if nulls and err != "NullsPresent":
-            return f"raise policy: evaluated factors have nulls in rows {sorted(nulls)} but " + (f"the error was {o.get('msg')}" if err else "no error was raised")
-        if not nulls and err:
+        if (nulls or const_null) and err not in ("NullsPresent", "ConstantNull"):
+            return (f"raise policy: evaluated factors have nulls in rows {sorted(nulls)}"
+                    + (" and a constant that is null" if const_null else "") + " but "
+                    + (f"the error was {o.get('msg')}" if err else "no error was raised"))
+        if not nulls and not const_null and err:
             return f"raise policy: no evaluated factor has a null, yet {o.get('msg')}"
         if err:
             return None
     elif err:
         return f"{pol} policy: the call raised {o.get('msg')}"
+    if pol == "drop" and const_null:
+        # (every row is null in a constant factor that is null: no row may remain)
+        for j, p in enumerate(o["parts"]):
+            if p["nrows"] != 0:
+                return f"drop policy: a constant factor is null (all rows are null), yet part {j} has {p['nrows']} rows"
+        return None
     joint = c["entry"] != "nonjoint"
-    check_index = c["output"] == "pandas" and c["frame"] == "pandas"
+    check_index = c["output"] == "pandas" and c["frame"] != "arrow"
     if pol == "ignore" and caller:
         for j, p in enumerate(o["parts"]):
             if p["kept"] is not None and (not _inc(p["kept"]) or not (set(range(n)) - caller) <= set(p["kept"])):
@@ -918,22 +1493,47 @@ def _oracle_call(c, o):
 
 
 def classify(c, o, why):
+    """C06-F1: a constant factor that is null + the drop policy: find_nulls raises 'Constant value is null, invalidating
+    all rows' where the property text asks for a matrix without rows."""
+    calls = []
+    if c["kind"] == "call":
+        calls = [(c, o)]
+    elif c["kind"] == "history" and "calls" in o:
+        calls = [(ci, oi) for _, ci, oi in history_calls(c, o)]
+    for ci, oi in calls:
+        if (ci["policy"] == "drop" and ci.get("na", "text") != "bad" and oi.get("error") == "ConstantNull"
+                and "drop policy: the call raised" in str(why) and "Constant value is null" in str(why)
+                and any(f["const_null"] for pr in oi.get("probe", {}).values() for f in pr["factors"].values())):
+            return "C06-F1"
     return None
 
 
 LEVEL_TEXT = (
     "Proof: Lean theorems (Props/C06.lean) about the executable model of the missing-data path show, for ALL frames, "
-    "ALL index labellings (no uniqueness assumed), null patterns, caller drop sets, storage kinds, encoders, output types "
-    "and entry points, that under the drop policy every part consists of exactly the rows not null in any factor and not "
-    "listed by the caller, in order, with the labels of those rows as index; that the caller's set ends up as caller ∪ nulls "
-    "= the rows removed; raise errors iff a null exists; ignore removes only the caller's rows; all encoders remove the same "
-    "positions; and that for EVERY history of calls on one materializer object, from any cache content, each call gives "
-    "what the same call on a new object gives (materializer_reuse), hence obeys the same row rule (reuse_drop_exact, "
-    "reuse_raise_ignore). The model is tied to the code by a differential correspondence on every run; an independent oracle "
-    "re-checks the property on the real output."
+    "ALL index labellings (no uniqueness assumed), ALL shapes of evaluated factor (constants, lists, pandas / narwhals Series, "
+    "0/1/2/n-d arrays, data frames, sparse matrices, nested dicts with hidden members, unknown objects) with any null "
+    "pattern per cell, caller drop sets, encoders, output types and entry points: find_nulls flags exactly the rows in which "
+    "some cell is null and answers exactly for values without null constants / >2-d arrays / unknown types "
+    "(find_nulls_rows, find_nulls_answers_iff); every drop_rows overload is positional and looks only at which positions are "
+    "listed, not at their order or repetitions (drop_rows_positional, drop_rows_order_and_repeats_irrelevant, "
+    "drop_rows_positions_outside, drop_rows_without_rows); under the drop policy every part consists of exactly the rows in "
+    "which no cell of any evaluated factor is null and which the caller did not list, in order, with the labels of those rows "
+    "as index (drop_exact, null_rows_exact, kept_rows_by_cells); the caller's set ends up as caller ∪ nulls = the rows removed; "
+    "raise errors iff a null exists; ignore removes only the caller's rows; a call fails with a null-check error iff, in "
+    "evaluation order, a factor fails its check while those before it pass, never under ignore (null_check_error_iff, for all "
+    "inputs); a string na_action is accepted exactly when it is a member's value (na_action_text); all encoders remove the "
+    "same positions; and for EVERY history of calls on one materializer object, from any cache content, each call gives what "
+    "the same call on a new object gives (materializer_reuse), hence obeys the same row rule. The model's dispatch tables are "
+    "decided equal to the live package's singledispatch registries (dispatch_tables_match_package). The model is tied to the "
+    "code by a differential correspondence on every run (single calls, histories with failing calls, and direct find_nulls / "
+    "drop_rows calls on every value type); an independent oracle re-checks the property on the real output."
 )
 LEVEL_NOTE = (
     "Trusted: Lean kernel + propext/Classical.choice/Quot.sound; the hand model of base.py/null_handling.py/contrasts.py/"
-    "hashed.py/model_spec.py/sugar.py row handling validated by correspondence; find_nulls' flags and storage kinds enter as "
-    "per-case parameters (find_nulls is checked against an independent null definition); pandas/numpy selection primitives are modelled."
+    "hashed.py/model_spec.py/sugar.py row handling validated by correspondence; per cell, whether it is null, and the type of "
+    "each evaluated value enter as per-case parameters (find_nulls itself is computed by the model and compared); "
+    "pandas/numpy/scipy/narwhals selection primitives are modelled; the order in which the pooled factors of a call are "
+    "evaluated is the iteration order of a Python set and is not modelled (when several factors would fail the null check, "
+    "which of their errors is reported is not compared). Known finding C06-F1: a constant factor that is null makes the drop "
+    "policy raise."
 )
